@@ -1,4 +1,240 @@
+(* C05 — every well-formed statement row becomes exactly one transaction, faithfully.
+
+   Model: C05/Model.v (hand model of parsers.parse_generic_csv / _iter_rows_with_delimiter / extract_location
+   over tokenised rows; float(text) modelled exactly; the literals of parse_amount regenerated from
+   /repo/src/tally/parsers.py into Gen/C05Amount.v on every run).  datetime.strptime is a parameter of
+   every statement (it holds for every date parser).  The tie to the code is the correspondence check of
+   harness/c05.py (model evaluated by vm_compute against parse_generic_csv on generated files).
+
+   THE TREE UNDER TEST.  [tree_variant] (Model.v) says which behaviour the correspondence check
+   compares the implementation with.  It is [as_code] for the unchanged /repo, which does NOT satisfy two
+   of the full statements: see the two [_refuted] theorems (their witnesses replayed on the code are the
+   known findings C05/non-finite-amount-accepted and C05/regex-unmatched-group-crash).
+   Once proposed_fixes/C05-nonfinite.diff and C05-regex-none-group.diff are applied:
+     1. Model.v:  Definition tree_variant : variant := fixed.
+     2. this file: delete the two theorems c05_accept_iff_wellformed_refuted and c05_rows_independent_refuted
+        (they no longer compile: they are false for [fixed]); c05_accept_iff_wellformed_fixed and
+        c05_rows_independent_fixed are then the statements about the tree.
+     3. known_findings.d/C05.jsonl: status "finding" -> "fixed".                                              *)
 From Coq Require Import String Ascii.
 From Coq Require Import List Bool ZArith NArith Arith.
-From Tally Require Import Gen.C05Amount C05.Model C05.Proofs.
+From Tally Require Import Gen.C05Amount C05.Model C05.Amount C05.Proofs C05.AmountProofs.
 Import ListNotations.
+Open Scope N_scope.
+
+(* ================================================================================ rows are independent *)
+(* full statement: the transactions read are the concatenation, in file order, of what each row yields
+   on its own (at most one transaction per row) — whatever the other rows contain *)
+Definition c05_rows_independent_statement (v : variant) : Prop :=
+  forall (strptime : bs -> bs -> option bs) (sp : spec) (inp : input),
+    spec_wfb sp = true ->
+    parse strptime v sp inp = Rows (flat_map (accepted strptime v sp) (iter_rows v (has_header sp) inp)).
+
+(* unchanged code: refuted — one line whose optional regex group did not match loses the whole file *)
+Theorem c05_rows_independent_refuted : ~ c05_rows_independent_statement tree_variant.
+Proof.
+  intros H.
+  specialize (H (fun _ _ => Some [])
+                {| date_col := 0; date_fmt := bytes "%Y-%m-%d"; amount_col := 2; desc := DescCol 1 [];
+                   loc_col := Some 3%nat; has_header := false; negate := false; absolute := false;
+                   spec_source := None; source_name := bytes "Bank"; dec_sep := bytes "." |}
+                (RegexIn [ {| raw := bytes "2024-01-05|TEA HOUSE|4.50|CA";
+                              groups := Some [Some (bytes "2024-01-05"); Some (bytes "TEA HOUSE"); Some (bytes "4.50"); Some (bytes "CA")] |};
+                           {| raw := bytes "2024-01-06|NO LOCATION|5.00";
+                              groups := Some [Some (bytes "2024-01-06"); Some (bytes "NO LOCATION"); Some (bytes "5.00"); None] |} ])
+                eq_refl).
+  vm_compute in H. discriminate H.
+Qed.
+Print Assumptions c05_rows_independent_refuted.
+
+(* unchanged code: holds for every comma / one-character / tab delimited file, and for regex-delimited
+   files in which every group of every matching line took part *)
+Theorem c05_rows_independent_partial :
+  forall (v : variant) (strptime : bs -> bs -> option bs) (sp : spec) (inp : input),
+    spec_wfb sp = true -> input_total inp ->
+    parse strptime v sp inp = Rows (flat_map (accepted strptime v sp) (iter_rows v (has_header sp) inp)).
+Proof. intros v st sp inp Hwf Hin. apply rows_independent; [exact Hwf|now right]. Qed.
+Print Assumptions c05_rows_independent_partial.
+
+(* with proposed_fixes/C05-regex-none-group.diff: the full statement *)
+Theorem c05_rows_independent_fixed : c05_rows_independent_statement fixed.
+Proof. intros st sp inp Hwf. apply rows_independent; [exact Hwf|now left]. Qed.
+Print Assumptions c05_rows_independent_fixed.
+
+Theorem c05_one_transaction_per_row :
+  forall strptime v sp row, (length (accepted strptime v sp row) <= 1)%nat.
+Proof. exact accepted_at_most_one. Qed.
+Print Assumptions c05_one_transaction_per_row.
+
+(* a row that is skipped on its own is skipped in any file, and the rows around it are read as if it
+   were not there: parse (a ++ bad :: b) = parse (a ++ b) = parse a ++ parse b *)
+Theorem c05_malformed_row_skipped :
+  forall strptime v sp (hdr : list (list bs)) a bad b w,
+    spec_wfb sp = true -> length hdr = (if has_header sp then 1 else 0)%nat ->
+    row_to_txn strptime v sp (map Some bad) = Skip w ->
+    parse strptime v sp (CsvIn (hdr ++ a ++ bad :: b)) = parse strptime v sp (CsvIn (hdr ++ a ++ b)) /\
+    parse strptime v sp (CsvIn (hdr ++ a ++ b)) =
+      Rows (flat_map (accepted strptime v sp) (map (map Some) a) ++ flat_map (accepted strptime v sp) (map (map Some) b)).
+Proof. exact csv_file_split. Qed.
+Print Assumptions c05_malformed_row_skipped.
+
+(* ================================================================================ accepted <-> well-formed *)
+(* full statement: a row (all of whose cells exist) becomes a transaction exactly when it has enough
+   columns, its date cell parses, its description is not blank and its amount cell denotes a finite,
+   non-zero number ([wellformed _ true]) *)
+Definition c05_accept_iff_wellformed_statement (v : variant) : Prop :=
+  forall (strptime : bs -> bs -> option bs) (sp : spec) (row : cells),
+    spec_wfb sp = true -> all_some row ->
+    ((exists t, row_to_txn strptime v sp row = Txn t) <-> wellformed strptime true sp row).
+
+(* unchanged code: refuted — the amount cell 'nan' gives a transaction *)
+Theorem c05_accept_iff_wellformed_refuted : ~ c05_accept_iff_wellformed_statement tree_variant.
+Proof.
+  intros H.
+  specialize (H (fun _ _ => Some (bytes "2024-01-02T00:00:00"))
+                {| date_col := 0; date_fmt := bytes "%Y-%m-%d"; amount_col := 2; desc := DescCol 1 [];
+                   loc_col := None; has_header := true; negate := false; absolute := false;
+                   spec_source := None; source_name := bytes "Bank"; dec_sep := bytes "." |}
+                [Some (bytes "2024-01-02"); Some (bytes "COFFEE"); Some (bytes "nan")]
+                eq_refl).
+  destruct H as [H _]; [repeat constructor; discriminate|].
+  destruct H as [_ [_ [_ [a [Ha [_ Hf]]]]]]; [eexists; vm_compute; reflexivity|].
+  vm_compute in Ha. injection Ha as <-. specialize (Hf eq_refl). discriminate Hf.
+Qed.
+Print Assumptions c05_accept_iff_wellformed_refuted.
+
+(* any variant: accepted <-> enough columns, date parses, description present, amount a non-zero float
+   that is finite if the variant rejects non-finite amounts.  For the unchanged code this is the
+   strongest true statement: "finite" is missing *)
+Theorem c05_accept_iff_wellformed_partial :
+  forall (v : variant) (strptime : bs -> bs -> option bs) (sp : spec) (row : cells),
+    spec_wfb sp = true -> all_some row ->
+    ((exists t, row_to_txn strptime v sp row = Txn t) <-> wellformed strptime (reject_nonfinite v) sp row).
+Proof. intros v st sp row. apply accept_iff. Qed.
+Print Assumptions c05_accept_iff_wellformed_partial.
+
+(* with proposed_fixes/C05-nonfinite.diff: the full statement *)
+Theorem c05_accept_iff_wellformed_fixed : c05_accept_iff_wellformed_statement fixed.
+Proof. intros st sp row. apply (accept_iff st fixed). Qed.
+Print Assumptions c05_accept_iff_wellformed_fixed.
+
+(* a row with too few columns is skipped, whatever its cells are (even unmatched groups) *)
+Theorem c05_short_row_skipped :
+  forall strptime v sp row, (length row <= max_col sp)%nat -> row_to_txn strptime v sp row = Skip Short.
+Proof. exact short_row_skipped. Qed.
+Print Assumptions c05_short_row_skipped.
+
+(* ================================================================================ fields are the row's *)
+Theorem c05_fields_faithful :
+  forall strptime v sp row t,
+    row_to_txn strptime v sp row = Txn t ->
+    exists de am0,
+      description_of sp row = inl de /\
+      parse_amount (dec_sep sp) (cell row (amount_col sp)) = Some am0 /\
+      strptime (date_fmt sp) (date_text sp (cell row (date_col sp))) = Some (t_date t) /\
+      t_desc t = de /\
+      t_amount t = apply_mode sp am0 /\
+      t_source t = source_of sp /\
+      t_field t = (if is_nil (fields_of sp row) then None else Some (fields_of sp row)) /\
+      t_loc t = (if is_nil (loc_text sp row) then extract_location de else Some (loc_text sp row)) /\
+      t_credit t = fl_is_neg (t_amount t).
+Proof. exact fields_faithful. Qed.
+Print Assumptions c05_fields_faithful.
+
+(* the description is the cell text without surrounding blanks, or the filled template *)
+Theorem c05_description :
+  forall sp row,
+    (forall c ex, desc sp = DescCol c ex -> description_of sp row = inl (cell row c)) /\
+    (forall caps t, desc sp = Template caps t -> description_of sp row = fill t (caps_of row caps)).
+Proof. intros sp row. split; intros; [eapply description_mode1|eapply description_mode2]; eassumption. Qed.
+Print Assumptions c05_description.
+
+(* ================================================================================ the amount is the number written *)
+(* for every sign, digit string, grouping, fraction, currency symbol position, parentheses and
+   surrounding blanks, under both decimal conventions: parse_amount reads back exactly the number written
+   (to_double only classifies binary64 overflow / underflow; it is the identity below 10^300) *)
+Theorem c05_amount_value :
+  forall (c : conv) (w : written), well_written w ->
+    parse_amount (conv_dec c) (render c w) = Some (to_double (written_value w)).
+Proof. exact amount_value. Qed.
+Print Assumptions c05_amount_value.
+
+Theorem c05_amount_value_exact :
+  forall (c : conv) (w : written), well_written w ->
+    written_mantissa w <> 0%Z -> (Z.abs (written_mantissa w) < 10 ^ 300)%Z -> (length (frac_digits w) <= 300)%nat ->
+    parse_amount (conv_dec c) (render c w) = Some (written_value w).
+Proof.
+  intros c w Hw Hnz Hlt Hfr. rewrite (amount_value c w Hw). f_equal. unfold written_value.
+  apply to_double_id; [exact Hnz|exact Hlt|]. split; [|apply Z.opp_nonpos_nonneg; apply Nat2Z.is_nonneg].
+  apply Z.opp_le_mono. rewrite Z.opp_involutive. change 300%Z with (Z.of_nat 300). now apply Nat2Z.inj_le.
+Qed.
+Print Assumptions c05_amount_value_exact.
+
+(* ================================================================================ sign modes *)
+(* {-amount} flips the sign, {+amount} takes the absolute value (and wins over negate_amount);
+   which rows are read, and every other field, do not depend on the sign mode *)
+Theorem c05_sign_modes :
+  forall strptime v sp row ng ab,
+    row_to_txn strptime v (with_mode sp ng ab) row
+    = map_res (mode_fn ng ab) (row_to_txn strptime v (with_mode sp false false) row).
+Proof. exact sign_modes. Qed.
+Print Assumptions c05_sign_modes.
+
+Theorem c05_sign_mode_table :
+  forall a, mode_fn false false a = a /\ mode_fn true false a = fneg a /\
+            mode_fn false true a = fabs a /\ mode_fn true true a = fabs a.
+Proof. intros a. repeat split; reflexivity. Qed.
+Print Assumptions c05_sign_mode_table.
+
+(* ================================================================================ non-vacuity *)
+Definition ex_spec : spec :=
+  {| date_col := 0; date_fmt := bytes "%m/%d/%Y"; amount_col := 3;
+     desc := Template [(bytes "merchant", 1%nat); (bytes "type", 2%nat)] [Ref (bytes "merchant"); Lit (bytes " ("); Ref (bytes "type"); Lit (bytes ")")];
+     loc_col := Some 4%nat; has_header := true; negate := true; absolute := false;
+     spec_source := None; source_name := bytes "Bank"; dec_sep := bytes "," |}.
+Definition ex_strptime (f t : bs) : option bs :=
+  if bs_eqb t (bytes "01/02/2024") then Some (bytes "2024-01-02T00:00:00") else None.
+Definition ex_file : input :=
+  CsvIn [ [bytes "Date"; bytes "Merchant"; bytes "Type"; bytes "Amount"; bytes "Where"];
+          [bytes " 01/02/2024  Tue"; bytes " ACME, Inc. "; bytes "card"; bytes "(1.234,56 €)"; bytes ""];
+          [bytes "01/02/2024"; bytes "short row"];
+          [];
+          [bytes "31/31/2024"; bytes "BAD DATE"; bytes "x"; bytes "5,00"; bytes "CA"];
+          [bytes "01/02/2024"; bytes "ZERO"; bytes "x"; bytes "-0,00"; bytes "CA"];
+          [bytes "01/02/2024"; bytes "TEA HOUSE WA"; bytes "pos"; bytes "4,5"; bytes " "] ].
+
+(* two of the six rows are read, in order, with the fields of their own rows *)
+Example c05_example :
+  spec_wfb ex_spec = true /\
+  parse ex_strptime tree_variant ex_spec ex_file =
+    Rows [ {| t_date := bytes "2024-01-02T00:00:00"; t_desc := bytes "ACME, Inc. (card)"; t_amount := Fin 123456 (-2);
+              t_source := bytes "Bank"; t_field := Some [(bytes "merchant", bytes "ACME, Inc."); (bytes "type", bytes "card")];
+              t_loc := None; t_credit := false |};
+           {| t_date := bytes "2024-01-02T00:00:00"; t_desc := bytes "TEA HOUSE WA (pos)"; t_amount := Fin (-45) (-1);
+              t_source := bytes "Bank"; t_field := Some [(bytes "merchant", bytes "TEA HOUSE WA"); (bytes "type", bytes "pos")];
+              t_loc := None; t_credit := true |} ].
+Proof. vm_compute. split; reflexivity. Qed.
+
+(* the hypotheses of c05_accept_iff_wellformed_* are satisfiable: a well-formed row with all cells present *)
+Example c05_example_wellformed :
+  let row := [Some (bytes "01/02/2024"); Some (bytes "ACME"); Some (bytes "card"); Some (bytes "12,50"); Some (bytes "")] in
+  all_some row /\ wellformed ex_strptime true ex_spec row.
+Proof.
+  cbv zeta. split; [repeat constructor; discriminate|].
+  split; [vm_compute; repeat constructor|]. split; [split; vm_compute; discriminate|].
+  split; [eexists; split; [vm_compute; reflexivity|discriminate]|].
+  eexists. split; [vm_compute; reflexivity|]. split; [reflexivity|reflexivity].
+Qed.
+
+(* the hypothesis of c05_amount_value is satisfiable: " ($1,234,567.89)\t" *)
+Example c05_example_written :
+  let w := {| w_lpad := [32]; w_rpad := [9]; w_paren := true; w_cur1 := Some [36]; w_sign := NoSign; w_cur2 := None;
+              w_int := [(1%nat, []); (2%nat, [3%nat; 4%nat]); (5%nat, [6%nat; 7%nat])]; w_frac := Some [8%nat; 9%nat];
+              w_cur3 := None |} in
+  well_written w /\ render US w = bytes " ($1,234,567.89)	" /\ written_value w = Fin (-123456789) (-2)
+  /\ parse_amount (conv_dec US) (render US w) = Some (Fin (-123456789) (-2)).
+Proof.
+  cbv zeta. split.
+  - unfold well_written. cbn. repeat split; try (repeat constructor); try (left; reflexivity); discriminate.
+  - vm_compute. repeat split; reflexivity.
+Qed.
